@@ -289,11 +289,11 @@ pub fn run(cx: &Cx) -> PropResult {
     let acc = parallel(cx, &|shard, acc| {
         let cfg = ValCfg { non_bmp: true, ..ValCfg::default() };
         let strat = tv_strategy(depth, cfg);
-        if drive(derive_seed(cx.seed, cx.prop, shard as u64, 0), &strat, n_sinks, acc, &|c: &TV| to_json(&Case::Sinks(c.clone())), &mut |c, a, r| check_sinks(c, a, r)) {
+        if drive(crate::run::tag_seed(derive_seed(cx.seed, cx.prop, shard as u64, 0), 0), &strat, n_sinks, acc, &|c: &TV| to_json(&Case::Sinks(c.clone())), &mut |c, a, r| check_sinks(c, a, r)) {
             return;
         }
         let strat = ops_strategy();
-        drive(derive_seed(cx.seed, cx.prop, shard as u64, 1), &strat, n_ops, acc, &|c: &OpsCase| to_json(&Case::Ops(c.clone())), &mut |c, a, r| check_ops(c, a, r));
+        drive(crate::run::tag_seed(derive_seed(cx.seed, cx.prop, shard as u64, 1), 1), &strat, n_ops, acc, &|c: &OpsCase| to_json(&Case::Ops(c.clone())), &mut |c, a, r| check_ops(c, a, r));
     });
     PropResult::new(
         acc,
